@@ -151,13 +151,18 @@ def _callback(hooks):
     return Builtin('callback', cb)
 
 
+ENDO = [False]
+
+
 class Env(object):
     def __init__(self, I, hooks):
         self.I = I
         self.h = hooks
         self.X = SpaceV('X', 'R')
-        self.Y = SpaceV('Y', 'R')
-        self.Y2 = SpaceV('Y2', 'R')
+        # endo mode (C12-R10): every operator maps X to X, so that branches
+        # taken only for domain == range are the ones that run
+        self.Y = self.X if ENDO[0] else SpaceV('Y', 'R')
+        self.Y2 = self.X if ENDO[0] else SpaceV('Y2', 'R')
         I.real_scalars.update({'tau', 'sigma', 'gamma', 'mu', 'omega',
                                'step', 'ss0', 'ss1', 'lam'})
 
@@ -175,6 +180,10 @@ def run(model, rel, fname, build, symbolic_zero=False, assume=None):
     def once(assume_):
         hooks = SolverHooks(symbolic_zero)
         I = Interp(model, assume_, hooks)
+        # in endo mode a user operator evaluated with out aliased to its
+        # input yields a poison symbol (an operator promises nothing for
+        # op(v, out=v); proximals do, C10 / C11-R5)
+        I.alias_poison = bool(ENDO[0])
         env = Env(I, hooks)
         args, kwargs, watch = build(env)
         # vectors handed in that are not part of the state the caller
@@ -571,6 +580,19 @@ def _resume(rep, model):
 
 
 # --------------------------------------------------------------------------
+def aliased_operator_calls(rep, model, rule='R10'):
+    """The solvers that take user operators are run for two iterations
+    with operators that map X to X; no operator (or adjoint) may be
+    evaluated with `out` aliased to its input - the result would be
+    unspecified for every operator that is not alias-safe (finite
+    differences, block operators ...)."""
+    ENDO[0] = True
+    try:
+        _callbacks(rep, model, rule=rule, final_only='poison', floor=12)
+    finally:
+        ENDO[0] = False
+
+
 def _callbacks(rep, model, rule='R3', final_only=False, floor=10):
     """R3: one callback per iteration with the current iterate.  With
     ``final_only`` (used by C12-R9) only the clause about the caller's
@@ -714,7 +736,16 @@ def _callbacks(rep, model, rule='R3', final_only=False, floor=10):
                           fn.lineno)
             continue
         probs = []
-        if final_only:
+        if final_only == 'poison':
+            for n in (1, 2, 3):
+                if 'aliased-call' in repr(finals[n]):
+                    probs.append('after %d iteration%s the iterate depends '
+                                 'on an operator evaluated with out aliased '
+                                 'to its input: %s' % (
+                                     n, 's' if n > 1 else '',
+                                     vs.show(vs.thaw(finals[n]))[:200]))
+                    break
+        elif final_only:
             for n in (1, 2, 3):
                 if logs[n] and logs[n][-1] != finals[n]:
                     probs.append('after %d iteration%s the caller\'s x does '
@@ -743,7 +774,9 @@ def _callbacks(rep, model, rule='R3', final_only=False, floor=10):
                 sorted(set(probs)))), rel, fn.lineno)
         else:
             n_ok += 1
-            rep.holds(rule, tag, 'the caller\'s x holds the iterate of the '
+            rep.holds(rule, tag, 'no user operator is evaluated with out '
+                      'aliased to its input' if final_only == 'poison' else
+                      'the caller\'s x holds the iterate of the '
                       'last iteration, for 1, 2 and 3 iterations'
                       if final_only else 'exactly %d callback(s) per '
                       'iteration with the current iterate' % per_iter)
